@@ -361,6 +361,7 @@ pub fn run(cfg: &RunCfg) -> Report {
     if cfg.replay.is_none() {
         run_sets(&gen_sets(cfg), &mut rep);
         run_named(&mut rep);
+        run_named_through_reference(&mut rep);
     }
     rep
 }
@@ -402,6 +403,84 @@ fn run_named(rep: &mut Report) {
         }
         Outcome::Err(e) => rep.sample(json!({"compile_err": e, "family": "named-number-bound"})),
         Outcome::Panic(p) => rep.harness_errors.push(format!("panic in the named-number family: {p}")),
+    }
+}
+
+
+/// a named number of an INTEGER type given as a value / DEFAULT *through* a constrained reference to that type
+/// (`Sub ::= Level (0..w)`, `n Level (0..w) DEFAULT high`): the number is the field of `Level`'s newtype, so it has to be
+/// rendered for the width of `Level` itself (`Integer::from(..)` when `Level` is unconstrained, a bare literal that
+/// fits when it is fixed-width), whatever the reference narrows
+fn run_named_through_reference(rep: &mut Report) {
+    let bs: Vec<i128> = boundary_set().into_iter().filter(|v| *v > 1 && *v < (1i128 << 100)).collect();
+    let mut body = String::new();
+    for (k, v) in bs.iter().enumerate() {
+        let w = v + 200;
+        // unconstrained root, and a root that is itself constrained to 0..v
+        body.push_str(&format!("Lv{k} ::= INTEGER {{ low(1), high({v}) }}\nSb{k} ::= Lv{k} (0..{w})\nlim{k} Sb{k} ::= high\npln{k} Lv{k} ::= high\n"));
+        body.push_str(&format!("Hd{k} ::= SEQUENCE {{ n Lv{k} (0..{w}) DEFAULT high, p Lv{k} DEFAULT high }}\n"));
+        body.push_str(&format!("Lc{k} ::= INTEGER {{ low(1), high({v}) }} (0..{v})\nSc{k} ::= Lc{k} (1..{v})\nlic{k} Sc{k} ::= high\n"));
+    }
+    let src = wrap(&[body]);
+    match compile_rasn(&[src.clone()]) {
+        Outcome::Ok { generated, .. } => {
+            let Ok(mods) = proj::project(&generated) else { return };
+            let Some(m) = mods.first() else { return };
+            let field_of = |name: &str| -> Option<String> {
+                match m.item(name).map(|i| &i.kind) {
+                    Some(ItemKind::Struct { fields, tuple: true }) if fields.len() == 1 => Some(fields[0].ty.clone()),
+                    _ => None,
+                }
+            };
+            let squeeze = |t: &str| t.split_whitespace().collect::<String>();
+            for (k, v) in bs.iter().enumerate() {
+                let sites: Vec<(String, String, Option<String>)> = vec![
+                    (format!("LIM{k}"), format!("Lv{k}"), None),
+                    (format!("PLN{k}"), format!("Lv{k}"), None),
+                    (format!("LIC{k}"), format!("Lc{k}"), None),
+                    (format!("hd{k}_n_default"), format!("Lv{k}"), Some("fn".into())),
+                    (format!("hd{k}_p_default"), format!("Lv{k}"), Some("fn".into())),
+                ];
+                for (site, root, _) in sites {
+                    rep.evaluations += 1;
+                    let Some(tok) = field_of(&root) else { rep.count("named-through-reference:root-not-observed"); continue };
+                    let text = match m.item(&site).map(|i| &i.kind) {
+                        Some(ItemKind::Const { init, .. }) | Some(ItemKind::Static { init, .. }) => squeeze(init),
+                        Some(ItemKind::Fn { body, .. }) => squeeze(body),
+                        _ => { rep.count("named-through-reference:site-not-observed"); continue }
+                    };
+                    // the argument of the innermost `Root(..)`
+                    let Some(pos) = text.rfind(&format!("{root}(")) else { rep.count("named-through-reference:no-root-constructor"); continue };
+                    let arg: String = {
+                        let rest = &text[pos + root.len() + 1..];
+                        let mut depth = 0i32;
+                        let mut out = String::new();
+                        for ch in rest.chars() {
+                            if ch == '(' { depth += 1; }
+                            if ch == ')' { if depth == 0 { break; } depth -= 1; }
+                            out.push(ch);
+                        }
+                        out
+                    };
+                    rep.count("named-through-reference");
+                    let ok = if tok == "Integer" {
+                        arg == format!("Integer::from({v}i128)")
+                    } else {
+                        let fits = match tok.as_str() {
+                            "u8" => *v <= u8::MAX as i128, "u16" => *v <= u16::MAX as i128, "u32" => *v <= u32::MAX as i128, "u64" => *v <= u64::MAX as i128,
+                            "i8" => *v <= i8::MAX as i128, "i16" => *v <= i16::MAX as i128, "i32" => *v <= i32::MAX as i128, "i64" => *v <= i64::MAX as i128,
+                            _ => false,
+                        };
+                        arg == v.to_string() && fits
+                    };
+                    if !ok {
+                        rep.unsat("", true, json!({"why": format!("the named number {v} is given to `{root}({tok})` as `{arg}`: not a value of the declared type"), "case": {"ctx": "named-through-reference", "asn1": format!("Lv{k} ::= INTEGER {{ low(1), high({v}) }}  Sb{k} ::= Lv{k} (0..{})  lim{k} Sb{k} ::= high  Hd{k} ::= SEQUENCE {{ n Lv{k} (0..{}) DEFAULT high, p Lv{k} DEFAULT high }}  Lc{k} ::= INTEGER {{ low(1), high({v}) }} (0..{v})  Sc{k} ::= Lc{k} (1..{v})  lic{k} Sc{k} ::= high", v + 200, v + 200), "site": site, "cons": [], "lit": v.to_string(), "observed_token": tok}}));
+                    }
+                }
+            }
+        }
+        Outcome::Err(e) => rep.sample(json!({"compile_err": e, "family": "named-through-reference"})),
+        Outcome::Panic(p) => rep.harness_errors.push(format!("panic in the named-through-reference family: {p}")),
     }
 }
 
